@@ -409,7 +409,7 @@ func genPert(t *rapid.T, mods []Mod, st *genState) ([]Mod, Pert) {
 		}
 	}
 	doc := digestref.ChosenDoc(fileMap(*m))
-	kinds := []string{"none", "flip", "append", "add-proto", "add-nonmodule"}
+	kinds := []string{"none", "append", "add-proto", "add-nonmodule"}
 	var withTail []int
 	for _, k := range modIdx {
 		if len(m.Files[k].Tail) > 0 {
@@ -417,9 +417,7 @@ func genPert(t *rapid.T, mods []Mod, st *genState) ([]Mod, Pert) {
 		}
 	}
 	if len(withTail) > 0 {
-		kinds = append(kinds, "truncate")
-	} else {
-		kinds = kinds[:1+copy(kinds[1:], kinds[2:])] // drop "flip"
+		kinds = append(kinds, "flip", "flip", "truncate")
 	}
 	if len(protoNonAnchor) > 0 {
 		kinds = append(kinds, "rename", "remove")
